@@ -7,6 +7,7 @@
   `OptionsTile`, sections by `RRs`.
 -/
 import DnsModel.Lemmas.ParseSpec
+import DnsModel.Tie.Name
 namespace Dns.C02
 open Dns
 
@@ -59,5 +60,17 @@ example : ¬ WF [0,7,0,0, 0,1, 0,1, 0,0, 0,0,  1,97,0, 0,1, 0,1,  0xc0,12, 0,1, 
   not_wf_of_err (e := .invalidPacket) (by decide)
 example : ¬ WF [0,7,0x80,0, 0,1, 0,1, 0,0, 0,0,  1,97,0, 0,1, 0,1,  0xc0,12, 0,1, 0,1, 0,0,0,9, 0,5, 1,2,3,4,5] :=
   not_wf_of_err (e := .invalidPacket) (by decide)
+
+
+/-! ### The same statements about the validators translated from the current source text
+(`Generated/TrName.lean`, rewritten by rs2lean.py on every run; equalities in `Tie/Name.lean`) -/
+
+theorem source_name_ok_iff_valid (p : Bytes) (off e : Nat) :
+    Tr.Name.check_compressed_name p off = .ok e ↔ ∃ ls, ValidName p off ls e := by
+  rw [Tie.check_compressed_name_eq]; exact name_ok_iff_valid p off e
+
+theorem source_plain_name_ok_iff (p : Bytes) (off e : Nat) :
+    Tr.Name.check_uncompressed_name p off = .ok e ↔ PlainName p off e := by
+  rw [Tie.check_uncompressed_name_eq]; exact plain_name_ok_iff p off e
 
 end Dns.C02
